@@ -197,6 +197,12 @@ def main():
         else:
             nsame += 1
     rep.bounded_count("compiled DFA identical across representation option sets (programs)", nsame)
+    # the byte-test emitter (range collapsing is governed by a representation option): its text denotes exactly the transition's symbols for ALL symbol lists,
+    # thresholds and flag values (loop invariants + z3 on the real AST, vf/props/cond_proofs.py)
+    from . import cond_proofs
+    cond_proofs.run(rep, "C12")
+    text += (" Proved for all symbol lists, collapse thresholds and flag values (pyarr: VCs from the real AST with loop invariants, z3): the condition text emitted by "
+             "_generate_condition_for_transition denotes exactly the transition's byte symbols, with or without range collapsing; the leaf templates (_generate_equal_check, _generate_range_check) by exhaustion.")
     return rep.finish(text, checker_cmd="./check C12")
 
 
